@@ -15,6 +15,7 @@ CONSTANTS
   DircmpIgnoreList = TRUE
   DryJobNeedsDstDir = TRUE
   CloneExcludeHitsSpecial = TRUE
+  SpecialByPrefix = TRUE
   CliFilterOnCwd = TRUE
 INIT Init
 NEXT Next
